@@ -89,6 +89,9 @@ pub type Handler = Arc<dyn Fn(&Req) -> Plan + Send + Sync>;
 pub struct Server {
     pub port: u16,
     pub tls: bool,
+    /// a TLS configuration that replaces the one given to start() for connections accepted from now on (a server restarted with
+    /// another certificate: the sessions it handed out before are gone with the old configuration)
+    tls_override: Mutex<Option<Arc<rustls::ServerConfig>>>,
     pub log: Arc<Mutex<Vec<Event>>>,
     handlers: Arc<Mutex<HashMap<String, Handler>>>,
     stop: Arc<AtomicBool>,
@@ -122,6 +125,7 @@ impl Server {
         let srv = Arc::new(Server {
             port,
             tls: tls.is_some(),
+            tls_override: Mutex::new(None),
             log: Arc::new(Mutex::new(vec![])),
             handlers: Arc::new(Mutex::new(HashMap::new())),
             stop: Arc::new(AtomicBool::new(false)),
@@ -140,11 +144,15 @@ impl Server {
                 };
                 let conn = conn_ids.fetch_add(1, SeqCst);
                 let s3 = s2.clone();
-                let tls = tls.clone();
+                let tls = s2.tls_override.lock().unwrap().clone().or_else(|| tls.clone());
                 std::thread::spawn(move || s3.serve_conn(conn, stream, tls));
             }
         });
         Ok(srv)
+    }
+
+    pub fn replace_tls(&self, cfg: Arc<rustls::ServerConfig>) {
+        *self.tls_override.lock().unwrap() = Some(cfg);
     }
 
     pub fn stop(&self) {
@@ -178,6 +186,11 @@ impl Server {
             })
             .cloned()
             .collect()
+    }
+
+    /// every request seen so far, whatever its target
+    pub fn all_requests(&self) -> Vec<Req> {
+        self.log.lock().unwrap().iter().filter_map(|e| if let Event::Request { req, .. } = e { Some(req.clone()) } else { None }).collect()
     }
 
     pub fn requests_for(&self, case: &str) -> Vec<Req> {
@@ -230,7 +243,8 @@ impl Server {
             *requests += 1;
             self.ev(Event::Request { req: req.clone(), t_us: self.now() });
             let case = req.case_id();
-            let handler = case.as_ref().and_then(|c| self.handlers.lock().unwrap().get(c).cloned());
+            // "*" is the fallback for targets that carry no (or an unknown) case id
+            let handler = case.as_ref().and_then(|c| self.handlers.lock().unwrap().get(c).cloned()).or_else(|| self.handlers.lock().unwrap().get("*").cloned());
             let plan = match handler {
                 Some(h) => h(&req),
                 None => Plan { status: 404, ..Plan::ok(b"no such case".to_vec()) },
